@@ -468,10 +468,7 @@ def check_C04(ctx):
                 "Builtins::new(name, kind) incl. aliases, the concrete structs and HpoTerm::similarity_score for 8 algorithms x 3 kinds, both argument orders; "
                 "non-trivial = behaviour with at least one edge and one fact")
     outs = [tlc(ctx, "mc/MC_Sim3.cfg", "mc/MC_AnnotHist.tla")["out"]]
-    # growth beyond the listed properties (HpoSetOps: path queries, HpoSet operations) rides on the same replay
-    outs.append(tlc(ctx, "mc/MC_Extras3q.cfg" if ctx.quick else "mc/MC_Extras3.cfg", "mc/MC_AnnotHist.tla", workers=14, timeout=1800)["out"])
-    if not ctx.quick:
-        outs.append(tlc(ctx, "mc/MC_Extras4.cfg", "mc/MC_AnnotHist.tla", workers=14, timeout=1800)["out"])
+
     outs.append(tlc(ctx, "mc/Sim_FullPairs.cfg", "mc/MC_Full.tla", workers=4 if ctx.quick else 8, simulate=40 if ctx.quick else 600, depth=45)["out"])
     allout = concat(ctx, outs, "c04-lines.txt")
     s = hv(ctx, "replay-sim", prop="C04", **{"in": allout})
@@ -624,7 +621,94 @@ def check_C10(ctx):
     return finish(ctx)
 
 
-CHECKS = {"C10": check_C10, "C09": check_C09, "C07": check_C07, "C08": check_C08, "C01": check_C01, "C02": check_C02, "C03": check_C03, "C04": check_C04, "C05": check_C05, "C06": check_C06}
+def extras_lines(ctx, big=True):
+    """behaviours with pair queries and set queries: every DAG on 3 ids x annotation histories, 4-5 ids, simulated 8-id pipelines"""
+    outs = [tlc(ctx, "mc/MC_Extras3q.cfg" if ctx.quick else "mc/MC_Extras3.cfg", "mc/MC_AnnotHist.tla", workers=14, timeout=1800)["out"]]
+    outs.append(tlc(ctx, "mc/MC_Paths4.cfg", "mc/MC_AnnotHist.tla", workers=14, timeout=1800)["out"])
+    if big:
+        outs.append(tlc(ctx, "mc/Sim_FullExtras.cfg", "mc/MC_Full.tla", workers=4 if ctx.quick else 8, simulate=25 if ctx.quick else 300, depth=45)["out"])
+    if not ctx.quick:
+        outs.append(tlc(ctx, "mc/MC_Paths5.cfg", "mc/MC_AnnotHist.tla", workers=14, timeout=3000)["out"])
+    return concat(ctx, outs, f"{ctx.prop}-extras-lines.txt")
+
+
+def check_C11(ctx):
+    ctx.rule = ("TLC derives for every ordered pair of terms of every explored ontology (all DAGs on 3-4 ids, 5 ids thorough, simulated 8-id pipelines) the upward distance (BFS layers), "
+                "the distance (minimum over common ancestors-or-self of the summed upward distances) and checks PathsWellFormed; the harness compares distance_to_ancestor / distance_to_term "
+                "(both argument orders) and the Distance similarity, and requires path_to_ancestor to be a chain of parent links of exactly the upward distance ending in the ancestor and "
+                "path_to_term (distinct terms) to be a walk along parent/child links with exactly distance-many steps ending in the second term, absent exactly when there is no common ancestor; "
+                "on recorded 50-70 term ontologies (long lineages next to shortcut edges) TLC validates the same conditions (TraceCore focus C11); non-trivial = at least one edge")
+    allout = extras_lines(ctx)
+    s = hv(ctx, "replay-sim", prop="C11", **{"in": allout})
+    ctx.traces += s.get("cases", 0)
+    ctx.extra["pair_queries"] = s.get("counters", {}).get("pair_queries", 0)
+    trace_core(ctx, "C11", 10 if ctx.quick else 200)
+    ctx.assumptions += ["for a term compared with itself only the distance (0) is constrained, as in the property"]
+    return finish(ctx)
+
+
+def check_C13(ctx):
+    ctx.rule = ("TLC derives for EVERY subset of the terms of every explored ontology child_nodes, the gene/OMIM/ORPHA id unions and the aggregated information content arguments "
+                "(HpoSetOps), and for ontologies with obsolete / replaced / modifier terms (OntGen pool loaded through from_bytes) without_modifier, without_obsolete, with_replaced_obsolete "
+                "(incl. replacements colliding with members or pointing outside the ontology) and the category counts (HpoSetMeta); the harness compares the copying and the in-place variants, "
+                "len / contains / iter / get; non-trivial = at least one edge and one fact / every metadata case")
+    allout = extras_lines(ctx, big=False)
+    s = hv(ctx, "replay-sim", prop="C13", **{"in": allout})
+    ctx.traces += s.get("cases", 0)
+    ctx.extra["set_queries"] = s.get("counters", {}).get("set_queries", 0)
+    so = tlc(ctx, "mc/MC_SetMeta.cfg", "mc/MC_SetMeta.tla", workers=4)["out"]
+    ss = hv(ctx, "replay-setmeta", prop="C13", **{"in": so})
+    ctx.traces += ss.get("cases", 0)
+    return finish(ctx)
+
+
+def check_C12(ctx):
+    ctx.rule = ("TLC explores the group machine (set + insertion log) for every insertion sequence of <=4 ids over a 5-id universe and every ordered pair of subsets "
+                "(1024 pairs) with the results of union, intersection and adding each id, checking the set laws; the harness replays them on hpo::term::HpoGroup "
+                "(insert return values, contains incl. neighbours, len, is_empty, get, strictly ascending iteration, the From<Vec>/From<HashSet>/FromIterator constructors, "
+                "the three operand forms of | and &, + and | id) and demands the same set semantics of 400 random group pairs with sizes 0..500 across the inline capacity of 30 "
+                "(nested, equal, touching, interleaved ranges); the ancestor queries of pairs of terms (common / union ancestors, with and without the terms) are validated by TLC "
+                "on recorded ontologies incl. 'fan' ontologies that realise arbitrary group pairs as ancestor sets; non-trivial = every case")
+    out = tlc(ctx, "mc/MC_Group.cfg", "mc/MC_Group.tla", workers=4)["out"]
+    s = hv(ctx, "replay-group", prop="C12", **{"in": out})
+    ctx.traces += s.get("cases", 0)
+    ctx.extra["big_group_pairs"] = s.get("counters", {}).get("big_group_pairs", 0)
+    # ancestor queries = set algebra of ancestor sets: exhaustive small ontologies + recorded large / fan ontologies
+    es = hv(ctx, "replay-sim", prop="C12", **{"in": extras_lines(ctx)})
+    ctx.traces += es.get("cases", 0)
+    trace_core(ctx, "C12", 10 if ctx.quick else 150)
+    ctx.assumptions += ["set semantics is size independent, so it is also demanded of groups far larger than TLC's universe"]
+    return finish(ctx)
+
+
+def check_C19(ctx):
+    ctx.rule = ("TLC enumerates every acyclic is_a relation over every subset of {1,50,118,300} and {0,1,118,119} (5 ids thorough), i.e. any number of top-level branches, terms below "
+                "several categories, below both a modifier and a phenotype branch, HP:1 not being the root, and subsets lacking HP:1 or HP:118, and derives modifier roots, categories, "
+                "is_modifier and the ascending category list of every term; each is built through Builder::build_with_defaults and through from_bytes and compared "
+                "(missing root => error, not panic, not success); non-trivial = both roots present and at least one category")
+    outs = [tlc(ctx, "mc/MC_CatsA.cfg", "mc/MC_Cats.tla", workers=8)["out"], tlc(ctx, "mc/MC_CatsB.cfg", "mc/MC_Cats.tla", workers=8)["out"]]
+    if not ctx.quick:
+        outs.append(tlc(ctx, "mc/MC_Cats5.cfg", "mc/MC_Cats.tla", workers=14, timeout=1800)["out"])
+    s = hv(ctx, "replay-cats", prop="C19", **{"in": concat(ctx, outs, "c19-lines.txt")})
+    ctx.traces += s.get("cases", 0)
+    return finish(ctx)
+
+
+def check_C20(ctx):
+    ctx.rule = ("TLC enumerates every text of <=5 characters over {H,P,:,0,1,9,x,blank,e-acute (2 bytes),emoji (4 bytes)} with the result parsing must give "
+                "(value or error; byte offset 3 inside a character is an error, never a panic) and checks ParseChar and the inverse laws on border ids; the harness replays "
+                "HpoTermId::try_from under catch_unwind, compares Display / to_be_bytes / from([u8;4]) / from_u32, adds the cases beyond TLC's 32-bit integers "
+                "(4294967295, 4294967296, 200-digit and 300-character inputs) and sweeps the inverse laws over every id 0..10^7+16 and the top of u32; "
+                "non-trivial = parses, or contains a multi-byte character")
+    out = tlc(ctx, "mc/MC_TermId.cfg" if ctx.quick else "mc/MC_TermId6.cfg", "mc/MC_TermId.tla", workers=8, timeout=1800)["out"]
+    s = hv(ctx, "replay-termid", prop="C20", **{"in": out})
+    ctx.traces += s.get("cases", 0)
+    ctx.extra["ids_swept"] = s.get("counters", {}).get("ids_swept", 0)
+    ctx.assumptions += ["a leading '+' (accepted by Rust's integer parser) is outside the generator; the three-byte prefix is not inspected, as the property states"]
+    return finish(ctx)
+
+
+CHECKS = {"C11": check_C11, "C13": check_C13, "C12": check_C12, "C19": check_C19, "C20": check_C20, "C10": check_C10, "C09": check_C09, "C07": check_C07, "C08": check_C08, "C01": check_C01, "C02": check_C02, "C03": check_C03, "C04": check_C04, "C05": check_C05, "C06": check_C06}
 
 
 def run_check(prop, tier, seed):
